@@ -342,6 +342,10 @@ def judge(ctx, binary, cases, timeout=120):
             v = (mdict or {}).get(k, "")
             if v.startswith("ok:"):
                 ctx.stat("oracle-%s-evaluations" % k, int(v[3:]))
+        if (mdict or {}).get("bskip", "0").isdigit() and int((mdict or {}).get("bskip", "0")) > 0:
+            # theta below the exact threshold theta0 but not below the threshold with the rounding margin of the criterion
+            # as evaluated in doubles: the below-threshold equality is not demanded there (the theta^2 error bound is)
+            ctx.stat("oracle-below-not-judged-within-rounding-margin-of-theta0", int(mdict["bskip"]))
         if (mdict or {}).get("frag") == "1":
             ctx.stat("structure-near-boundary-skipped")
         v = verdict(c, io, idict, mdict, mo)
